@@ -78,6 +78,7 @@ func runC19(c *Ctx) {
 	blocklistLooksAtBaseName(c, "R5")
 	lineEndingFallsBack(c, "R4")
 	noLoopCarriedFlagInTrack(c, "R5")
+	alreadySupportedMeansTracked(c, "R5")
 	// ---- R1 escape coverage -----------------------------------------------------------------------
 	pats, pos, ok := stringMapGlobal(p, "commands", "trackEscapePatterns")
 	globs, gpos, ok2 := stringSliceGlobal(p, "commands", "trackEscapeStrings")
